@@ -82,6 +82,29 @@ Example C09_example :
   decide_hit q e ((946684800 + 8600) * second) = DRevalidate false.
 Proof. repeat split; vm_compute; reflexivity. Qed.
 
+(* Store, then reuse: once StoreResponse has run for (q, r) under a key that had no index, every later world in which the
+   index of that key and the entry are still what it wrote (whatever happened to other keys in between) answers a request
+   q' with the same key (an equivalent URI: C03_key_complete) which the written reference matches (equivalent selecting
+   fields: C09_match_complete) and for which the decision is to serve (fresh by more than a second and no validation
+   demanded: C09_decision) from the store: no origin call, no change of the store, r's status and body. *)
+Theorem C09_store_then_hit : forall q q' r k a b w r1 w1 resolved,
+  make_url_key (q_url q') = k -> is_request_method_understood q' = true ->
+  normalize_vary (join [44] (hvalues (bs "Vary") (remove_hop_by_hop (p_hdr r)))) (q_hdr q) = Some resolved ->
+  p_body_ok r = true ->
+  run None (store_response q r k [] a b (-1)) w = (Done r1, w1) ->
+  let rs := with_hdr r (remove_hop_by_hop (p_hdr r)) in
+  let id := make_vary_key k resolved in
+  let e := entry_of id rs a b in
+  let nr := {| r_id := id; r_vary := join [44] (hvalues (bs "Vary") (p_hdr rs)); r_resolved := resolved; r_recv := date_header (p_hdr rs) |} in
+  r1 = rs /\
+  forall w2, get_refs (w_store w2) k = get_refs (w_store w1) k -> get_entry (w_store w2) id = get_entry (w_store w1) id ->
+    ref_matches nr (q_hdr q') = Some true -> decide_hit q' e (w_clock w2) = DServe ->
+    exists w3 out, run None (round_trip q') w2 = (Done (OResp out), w3) /\
+      w_calls w3 = w_calls w2 /\ w_clock w3 = w_clock w2 /\ w_store w3 = w_store w2 /\
+      p_status out = p_status r /\ p_body out = p_body r.
+Proof. exact store_then_hit. Qed.
+Print Assumptions C09_store_then_hit.
+
 (* ---------- tie to the source: the part of the model this property rests on is what /verif/translate derives from
    /repo's Go source on this run (Generated/*.v are rewritten before every build; see DESIGN.md section 9) ---------- *)
 From HC.Generated Require Import SrcEffects SrcStatus.
